@@ -1189,7 +1189,7 @@ func (s *Session) LoadPackages(pkg *PackageData) (*sources.Sources, error) {
 	var srcs *sources.Sources
 	if s.buildCache != nil {
 		cachedSrcs := &sources.Sources{}
-		if s.buildCache.Load(cachedSrcs, pkg.ImportPath, pkg.SrcModTime) {
+		if s.buildCache.Load(cachedSrcs, pkg.ImportPath, pkg.SrcModTime) && restoredFilesStillExist(pkg, cachedSrcs) {
 			srcs = cachedSrcs
 		}
 	}
@@ -1239,6 +1239,44 @@ func (s *Session) LoadPackages(pkg *PackageData) (*sources.Sources, error) {
 	}
 
 	return srcs, nil
+}
+
+// restoredFilesStillExist reports whether every source file of the package
+// directory that the cached sources were built from is still part of the
+// package. Removing (or renaming) a file makes none of the remaining files
+// newer than the cache entry, so modification times alone cannot tell.
+func restoredFilesStillExist(pkg *PackageData, srcs *sources.Sources) bool {
+	current := map[string]bool{}
+	for _, name := range pkg.GoFiles {
+		if !filepath.IsAbs(name) {
+			name = filepath.Join(pkg.Dir, name)
+		}
+		current[name] = true
+	}
+	for _, f := range pkg.JSFiles {
+		current[f.Path] = true
+	}
+	pkgDir := filepath.Clean(pkg.Dir)
+	gone := func(name string) bool {
+		if !filepath.IsAbs(name) || filepath.Dir(name) != pkgDir {
+			return false // Generated file or a file of the overlay.
+		}
+		if strings.HasPrefix(filepath.Base(name), "gopherjs__") {
+			return false // Overlay file renamed into the package directory.
+		}
+		return !current[name]
+	}
+	for _, f := range srcs.Files {
+		if gone(srcs.FileSet.Position(f.Package).Filename) {
+			return false
+		}
+	}
+	for _, f := range srcs.JSFiles {
+		if gone(f.Path) {
+			return false
+		}
+	}
+	return true
 }
 
 func (s *Session) prepareAndCompilePackages(rootSrcs *sources.Sources) (*compiler.Archive, error) {
